@@ -515,6 +515,7 @@ pub const C12: ConcCheck = ConcCheck {
 pub const C12R: ConcCheck = ConcCheck { sub: "probe-resize", mix: Mix::Resize, ..C12 };
 pub const C12C: ConcCheck = ConcCheck { sub: "probe-readers", mix: Mix::Readers, ..C12 };
 pub const C12T: ConcCheck = ConcCheck { sub: "probe-treemove", mix: Mix::TreeMove, ..C12 };
+pub const C12H: ConcCheck = ConcCheck { sub: "probe-helpers", mix: Mix::Helpers, max_threads: 4, ..C12 };
 
 fn probe_budget(tier: Tier, seed: u64) -> Budget {
     // the probes already visit every step of the base schedule; preemptions add writer/writer interleavings
@@ -531,6 +532,8 @@ fn c12_shard(ctx: &Ctx, out: &mut ShardOut) {
     C12R.run(ctx, &pool, 13, ctx.share(ctx.by_tier(64, 300)) as u32, &b, out);
     C12C.run(ctx, &pool, 14, ctx.share(ctx.by_tier(48, 200)) as u32, &b, out);
     C12T.run(ctx, &pool, 15, ctx.share(ctx.by_tier(48, 200)) as u32, &b, out);
+    let hb = Budget { single: 40, double: 0, coarse2: 20, tapes: 4, tape_seed: ctx.shard_seed(83), triple: ctx.by_tier(30, 300) as usize };
+    C12H.run(ctx, &pool, 16, ctx.share(ctx.by_tier(96, 600)) as u32, &hb, out);
     out.exhaustive_parts.push("for each executed schedule: every yield point of every writer is a suspension point".into());
 }
 fn c12_replay(sub: &str, case: &Value) -> Result<(), CaseFail> {
@@ -540,6 +543,7 @@ fn c12_replay(sub: &str, case: &Value) -> Result<(), CaseFail> {
         "probe-resize" => C12R.replay(&pool, case, &b),
         "probe-readers" => C12C.replay(&pool, case, &b),
         "probe-treemove" => C12T.replay(&pool, case, &b),
+        "probe-helpers" => C12H.replay(&pool, case, &Budget { single: 200, double: 0, coarse2: 100, tapes: 20, tape_seed: 1, triple: 300 }),
         _ => C12.replay(&pool, case, &b),
     }
 }
@@ -604,6 +608,7 @@ pub const C07C: ConcCheck = ConcCheck { sub: "iter-probe", mix: Mix::PerKey, max
 pub const C07D: ConcCheck = ConcCheck { sub: "iter-probe-resize", mix: Mix::Resize, max_threads: 2, max_ops: 3, mk_probe: Some(c07_probe), ..C07B };
 pub const C07E: ConcCheck = ConcCheck { sub: "iter-probe-drain", mix: Mix::Drain, max_threads: 2, max_ops: 3, mk_probe: Some(c07_probe), ..C07B };
 pub const C07T: ConcCheck = ConcCheck { sub: "iter-probe-treemove", mix: Mix::TreeMove, max_threads: 2, max_ops: 3, mk_probe: Some(c07_probe), ..C07B };
+pub const C07H: ConcCheck = ConcCheck { sub: "iter-probe-helpers", mix: Mix::Helpers, max_threads: 4, max_ops: 3, mk_probe: Some(c07_probe), ..C07B };
 pub const C07F: ConcCheck = ConcCheck { sub: "iter-drain", mix: Mix::Drain, max_threads: 3, max_ops: 3, ..C07B };
 pub const C07L: ConcCheck = ConcCheck { sub: "iter-long", mix: Mix::LongReaders, max_threads: 5, max_ops: 8, ..C07B };
 
@@ -625,6 +630,8 @@ fn c07_shard(ctx: &Ctx, out: &mut ShardOut) {
     C07D.run(ctx, &pool, 10, ctx.share(ctx.by_tier(64, 300)) as u32, &pb, out);
     C07T.run(ctx, &pool, 14, ctx.share(ctx.by_tier(48, 300)) as u32, &pb, out);
     super::concchecks::set_run(ctx, &pool, out, "iter-set", true, 400, 6_000);
+    let hb = Budget { single: 40, double: 0, coarse2: 20, tapes: 4, tape_seed: ctx.shard_seed(90), triple: ctx.by_tier(30, 300) as usize };
+    C07H.run(ctx, &pool, 15, ctx.share(ctx.by_tier(128, 800)) as u32, &hb, out);
     let db = match ctx.tier {
         Tier::Quick => Budget { single: 30, double: 0, coarse2: 260, tapes: 2, tape_seed: ctx.shard_seed(88), triple: 0 },
         Tier::Thorough => Budget { single: 300, double: 300, coarse2: 3000, tapes: 20, tape_seed: ctx.shard_seed(88), triple: 0 },
@@ -647,6 +654,7 @@ fn c07_replay(sub: &str, case: &Value) -> Result<(), CaseFail> {
         "iter-probe-resize" => C07D.replay(&Pool::new(), case, &pb),
         "iter-probe-treemove" => C07T.replay(&Pool::new(), case, &pb),
         "iter-set" => super::concchecks::c01_set_replay(&Pool::new(), case),
+        "iter-probe-helpers" => C07H.replay(&Pool::new(), case, &Budget { single: 200, double: 0, coarse2: 100, tapes: 20, tape_seed: 1, triple: 300 }),
         "iter-probe-drain" => C07E.replay(&Pool::new(), case, &Budget { single: 300, double: 300, coarse2: 3000, tapes: 20, tape_seed: 1, triple: 0 }),
         "iter-drain" => C07F.replay(&Pool::new(), case, &b),
         "iter-long" => C07L.replay(&Pool::new(), case, &Budget { single: 0, double: 0, coarse2: 0, tapes: 100, tape_seed: 1, triple: 0 }),
